@@ -22,7 +22,7 @@ TRUSTED = ['harness/pv/translate.py (python ast -> Lean, validated each run on t
            'correspondence harness (pv.engine, pv.proto) and generators of pv.props.c04',
            'Lean driver parser/printer (PygModel/Basic.lean, DateParseDriver.lean)']
 ASSUMPTIONS = ['CPython datetime constructors / ordinals behave as PygModel/Greg.lean (sampled on every line)',
-               'dateutil.parser.parse reads a<sep>b<sep>yyyy month-first unless a > 12, and ISO / yyyymmdd / month-name spellings as written '
+               'dateutil.parser.parse reads a/b/yyyy (all it gets for a numeric triple since fix C04-D4: uk2dt / us2dt rewrite the separators) month-first unless a > 12, and ISO / yyyymmdd / month-name spellings as written '
                '(month names looked up, lower-cased, in its own MONTHS table, which is lifted into the generated Gen.duMonths); '
                'this is assumed by the model (duResolve, parseTokens) and sampled by correspondence',
                'numpy: x.astype(datetime.datetime) gives a date for Y/M/W/D, a datetime for h..us, an int for ns or outside year 1..9999; '
